@@ -46,6 +46,9 @@ def rand_scalar(r):
 
 
 def rand_string(r):
+    if r.random() < 0.04:      # long text with many repeated lines
+        n = r.choice([52, 70, 120])
+        return "".join(r.choice(["", "", "aa", "....", "x = 1", "line %d" % r.randrange(5)]) + "\n" for _ in range(n))
     n = r.randrange(0, 6)
     parts = []
     for _ in range(n):
@@ -95,6 +98,14 @@ def rand_edit(r, v, depth=0):
     if isinstance(v, str):
         lines = v.splitlines(True)
         c = r.random()
+        if len(lines) > 40 and c < 0.7:
+            k = r.randrange(1, len(lines) - 1)
+            if c < 0.35:
+                lines.insert(k, lines[k])
+            else:
+                dup = [i for i in range(1, len(lines)) if lines[i] == lines[i - 1]]
+                del lines[r.choice(dup) if dup else k]
+            return "".join(lines)
         if not lines or c < 0.3:
             lines.insert(r.randrange(len(lines) + 1), "new" + r.choice(SEPS))
         elif c < 0.5:
